@@ -135,4 +135,18 @@ def fatal (evs : List Event) : Option Kind :=
   else if (style evs).isNone then some .noBibstyle
   else none
 
+/-! ### "every other line is ignored" -/
+
+/-- the file system with every line that is not one of the four commands deleted from every file -/
+def commandLinesOnly (fs : FS) : FS :=
+  fun p => (fs p).map (List.filter fun l => decide (classify l ≠ .other))
+
+/-- a report without its line number and line text (deleting lines renumbers the others) -/
+def unlocated (r : Report) : Report := { r with lineno := none, line := none }
+
+/-- the outcome of a parse up to the line numbers in the reports -/
+def outcome : Except Abort St → Except Abort St
+  | .ok st => .ok { st with reports := st.reports.map unlocated }
+  | .error a => .error { a with reports := a.reports.map unlocated }
+
 end Pybtex.Aux.Spec
